@@ -398,7 +398,7 @@ def run_rules(syn, res):
     T, EXH, ADV, ABS, STK = "R-C08-table", "R-C08-exh", "R-C08-adv", "R-C08-abs", "R-C08-stack"
     res.rule(T, "extracted transition table (state variant x character class, plus end-of-input column) == reference table, cell by cell, modulo the state invariants (end payload == current index, one-char states start at current-1)")
     res.rule(EXH, "dispatcher and flush match every state variant without wildcard; reserved-word and punctuation tables equal the documented lists")
-    res.rule(ADV, "every new end index adds the UTF-8 width of the consumed character (checked per class with multi-byte representatives; part of the table comparison)")
+    res.rule(ADV, "every new end index adds the UTF-8 width of the consumed character (checked per class with multi-byte representatives; part of the table comparison: its instances are the multi-byte cells of R-C08-table)", optional=True)
     res.rule(ABS, "every index reaching a Lex error from the bracket scan is absolute (slice start + offset) and the scan iterates byte offsets")
     res.rule(STK, "the attribute finisher tests the bracket stack for emptiness before its success path and reports Lex(end, None)")
     tf = tok_extract(syn)
